@@ -302,6 +302,40 @@ def one_case(ctx, k):
                 ref_holder[:] = save
             else:
                 ctx.count("redirect-layout-reference-failed")
+        # --- demultiplexed files: the format follows the name of the file that is created (here: the adapter's name), whatever
+        #     the compression suffix of the template and the number of cores
+        if not paired and len(b["recs1"]) >= 4:
+            pf = []
+            for _n, s_, _q in b["recs1"]:
+                if len(s_) >= 8 and s_[:6].upper() not in pf and set(s_[:6].upper()) <= set("ACGT"):
+                    pf.append(s_[:6].upper())
+                if len(pf) == 2:
+                    break
+            if len(pf) == 2:
+                names = [rng.choice(["sA.fasta", "sA.fa", "sA.fastq"]), rng.choice(["sB.fa", "sB", "sB.fq"])]
+                dm = ["-g", f"{names[0]}=^{pf[0]}", "-g", f"{names[1]}=^{pf[1]}", "-e", "0", "--no-indels"]
+                got = {}
+                for tag, extra, tmpl_sfx in (("ref", [], ""), ("cores2", ["-j", "2", "--buffer-size", "2000"], ""), ("gz", [], ".gz"), ("gz-cores2", ["-j", "2"], ".gz")):
+                    os.makedirs(os.path.join(d, "dq_" + tag), exist_ok=True)
+                    r_ = climon.run(d, dm + extra + ["-o", f"dq_{tag}/{{name}}{tmpl_sfx}"] + ins, tag="dq" + tag, trace=False)
+                    if r_.rc != 0:
+                        got = None
+                        break
+                    got[tag] = {nm: stream(d, f"dq_{tag}/{nm}{tmpl_sfx}") for nm in names + ["unknown"]}
+                if got:
+                    ctx.count("variant:demultiplexed-name-format")
+                    ctx.case((str(dm), fq1[:200], "demux-names"))
+                    for tag in ("cores2", "gz", "gz-cores2"):
+                        for nm in names + ["unknown"]:
+                            a_, b_ = got["ref"][nm], got[tag][nm]
+                            if a_[0] in ("missing", "error") or not a_[1]:
+                                continue
+                            same = a_[0] == b_[0] and [(x[0], x[1]) for x in a_[1]] == [(x[0], x[1]) for x in (b_[1] or [])]
+                            if not same:
+                                ctx.violation("output-format" if a_[0] != b_[0] else "records-differ",
+                                              f"variant [demultiplexed-name-format {tag}] file {nm}: plain single-core run wrote {a_[0]} with {len(a_[1])} records, "
+                                              f"this run {b_[0]} with {len(b_[1] or [])}; argv={dm}", dict(case, variant="demux-names " + tag),
+                                              facts=dict(variant="demultiplexed-name-format"), klass="demux-names")
         # --- FASTA input: same names and sequences when no quality option is used
         if not b["qual_opts"]:
             with open(os.path.join(d, "in1.fasta"), "w") as f:
